@@ -191,7 +191,11 @@ def one_program(seed, i):
         hit("accepted")
         for stage, msg in check_protos(f, mod, p, hit, f"{seed}_{i}"):
             cf = [x for x in c01.syn_features(p.src) if x in ("if", "for", "while", "helper_call", "alias_in_block", "return_dup", "return_param")]
-            viol.append({"key": f"accepted;stage={stage};err={sig(msg)}", "what": f"accepted program, {stage}: {msg[:300]}",
+            err = sig(msg)
+            if "alias_in_block" in cf and err in ("loop_output_mismatch", "type_inference", "if_output_type_mismatch"):
+                # an alias assignment inside a branch leaves If outputs untyped; whichever node consumes them next complains
+                err = "alias_untyped_outputs"
+            viol.append({"key": f"accepted;stage={stage};err={err}", "what": f"accepted program, {stage}: {msg[:300]}",
                          "detail": {"src": p.src, "features": sorted(p.features), "cf": cf}})
         if {"if_else", "if_only", "for_loop", "while_loop"} & p.features:
             sigs.append("acc|" + "|".join(sorted(p.features)))
